@@ -62,6 +62,8 @@ type pair struct {
 type hist struct {
 	bonus     common.Address // the over-delivering token (external pair "bonus")
 	forcePair *pair          // when set, conversions are generated for this pair
+	forceFrom *core.Account  // when set, conversions are generated for this sender ...
+	forceAmt  *big.Int       // ... and this amount
 	r         *core.Run
 	id        string
 	rng       *rand.Rand
@@ -127,6 +129,9 @@ func TestC11(t *testing.T) {
 		}
 		if !h.ended {
 			h.lieProbe()
+		}
+		if !h.ended {
+			h.skimProbe()
 		}
 		if !h.ended {
 			h.verifyLayout()
@@ -226,7 +231,8 @@ func newHist(r *core.Run, id string) *hist {
 		if err != nil {
 			return err
 		}
-		dir, err := ac.DeployCompiled(n, h.dep.Eth, erc20contracts.ERC20DirectBalanceManipulationContract, big.NewInt(1_000_000_000))
+		// supply 2^70: large enough for conversions whose shortfall (the half the token keeps back) is a multiple of 2^64
+		dir, err := ac.DeployCompiled(n, h.dep.Eth, erc20contracts.ERC20DirectBalanceManipulationContract, new(big.Int).Lsh(big.NewInt(1), 70))
 		if err != nil {
 			return err
 		}
@@ -249,6 +255,10 @@ func newHist(r *core.Run, id string) *hist {
 					return err
 				}
 			}
+		}
+		// the first user holds 2^67 of the fee-taking token (the transfer itself delivers half)
+		if err := ac.Call(n, core.ERC20ABI, h.dep.Eth, dir, "transfer", h.users[0].Eth, new(big.Int).Lsh(big.NewInt(1), 68)); err != nil {
+			return err
 		}
 		if err := regERC("honest", "honest", hon); err != nil {
 			return err
@@ -622,6 +632,32 @@ func (h *hist) lieProbe() {
 	set(0)
 }
 
+// skimProbe: the fee-taking token (delivers half of every transfer) is asked to convert amounts whose shortfall is a
+// multiple of 2^64 - 2^65 and 2^66 units - from the one holder rich enough; a check of the escrow that looks at a
+// truncated number would let such a conversion through.
+func (h *hist) skimProbe() {
+	var dp *pair
+	for _, p := range h.pairs {
+		if p.Name == "direct" {
+			dp = p
+		}
+	}
+	if dp == nil || h.ended {
+		return
+	}
+	h.forcePair, h.forceFrom = dp, h.users[0]
+	defer func() { h.forcePair, h.forceFrom, h.forceAmt = nil, nil, nil }()
+	for _, k := range []uint{65, 66} {
+		if h.ended {
+			break
+		}
+		h.forceAmt = new(big.Int).Lsh(big.NewInt(1), k)
+		h.opConvert("erc20")
+		h.invariants(h.touched)
+		h.r.Count(fmt.Sprintf("fee_token_conversions_with_shortfall_multiple_of_2^64/2^%d", k), 1)
+	}
+}
+
 // bonusProbe: tokens of the bonus pair are converted into vouchers while the token behaves (the module's escrow builds
 // up), the owner then switches the bonus on, and vouchers are converted back - the step in which an over-delivering
 // token pays out more than was asked for unless the conversion notices.
@@ -790,6 +826,9 @@ func (h *hist) genConv(dir string) *conv {
 		}
 		return big.NewInt(0)
 	}
+	if h.forceFrom != nil {
+		u = h.forceFrom
+	}
 	bal := srcBal(u)
 	if bal.Sign() == 0 && h.pick(5) > 0 {
 		// prefer a sender that owns something to convert
@@ -804,6 +843,9 @@ func (h *hist) genConv(dir string) *conv {
 	acc, kind, blocked := h.receiver(u)
 	c.RecvAcc, c.RecvEth, c.RecvKind, c.Blocked = acc, common.BytesToAddress(acc), kind, blocked
 	c.Amount = h.amount(bal)
+	if h.forceAmt != nil {
+		c.Amount = sdk.NewIntFromBigInt(h.forceAmt)
+	}
 	if dir == "coin" {
 		c.Msg = &aggtypes.MsgConvertCoin{Coin: sdk.Coin{Denom: denom, Amount: c.Amount}, Receiver: c.RecvEth.Hex(), Sender: u.Acc.String()}
 	} else {
